@@ -118,16 +118,20 @@ def Metrics.clients (m : Metrics) : Nat := m.accepted - m.lost
 
 /-! ## The unit: live connections, the gate's links, what one event does -/
 
-/-- A subscription slot of the gate. `active` = in `updates` (not in `suspended`); `alive` = the update can be
-    handed over (queue receiver not closed / direct target not dropped). -/
+/-- A subscription slot of the gate. `inUpd` / `inSusp` = the slot is in the gate's `updates` / `suspended` map
+    (both maps are shared by the gate and its clones); `flag` = the `suspended` field of the `Link` itself
+    (`Link::suspend` sends nothing when it is already set); `alive` = an update can be handed over (queue
+    receiver not closed / direct target not dropped). -/
 structure Link where
   slot : Nat
-  active : Bool
+  flag : Bool
+  inUpd : Bool
+  inSusp : Bool
   alive : Bool
   deriving DecidableEq, Repr
 
-/-- `sent_at_least_once` of `Gate::update_data`. -/
-def anySent (ls : List Link) : Bool := ls.any (fun l => l.active && l.alive)
+/-- `sent_at_least_once` of `Gate::update_data`: it walks `updates` only. -/
+def anySent (ls : List Link) : Bool := ls.any (fun l => l.inUpd && l.alive)
 
 /-- What `process_msg` did with a parsed message (`MessageType`). -/
 inductive Verdict where
@@ -209,10 +213,24 @@ def World.conns' (w : World) : Ev → List Conn
   | .fault c true => dropConn c w.conns
   | _ => w.conns
 
+/-- `Gate::subscribe`, `suspension`, `unsubscribe` as the root gate handles them, and `FollowSubscribe` as every
+    gate clone that reads its command queue handles it: `self.updates.insert(slot, …)` whatever the subscription's
+    `suspended` flag says. Every live connection has such a clone (the one inside its `BmpStream`), and clones share
+    `updates` with the root, so a link that subscribes *suspended* while a router is connected ends up in both maps. -/
 def World.links' (w : World) : Ev → List Link
-  | .sub slot susp => if w.links.any (fun l => l.slot == slot) then w.links else w.links ++ [⟨slot, !susp, true⟩]
-  | .suspend slot => setLink slot (fun l => { l with active := false }) w.links
-  | .unsuspend slot => setLink slot (fun l => { l with active := true }) w.links
+  | .sub slot susp =>
+    if w.links.any (fun l => l.slot == slot) then w.links
+    else w.links ++ [⟨slot, susp, !susp || !w.conns.isEmpty, susp, true⟩]
+  | .suspend slot =>
+    setLink slot (fun l => match l.flag with
+      | true => l
+      | false => (match l.inUpd with
+        | true => { l with flag := true, inUpd := false, inSusp := true }
+        | false => { l with flag := true })) w.links
+  | .unsuspend slot =>
+    setLink slot (fun l => match l.inSusp with
+      | true => { l with flag := false, inSusp := false, inUpd := true }
+      | false => { l with flag := false }) w.links
   | .unsub slot => w.links.filter (fun l => l.slot != slot)
   | .kill slot => setLink slot (fun l => { l with alive := false }) w.links
   | _ => w.links
